@@ -153,6 +153,10 @@ impl Sink {
                 self.found.push(Found { v: v.clone(), schedule: sched, run: self.run });
             }
         }
+        // every evidence file carries at least one concrete schedule: run 0's first world
+        if self.run == 0 && self.samples.is_empty() && w.samples.is_empty() && !w.history.is_empty() {
+            self.samples.push(json!({"schedule": w.history.iter().take(12).cloned().collect::<Vec<_>>()}));
+        }
         for s in w.samples {
             if self.samples.len() < 4 {
                 self.samples.push(s);
